@@ -514,6 +514,8 @@ func (t *Transition) emitSelfEvents() Result {
 				t.TargetIndexes = slices.Delete(t.TargetIndexes, idx, idx+1)
 				targetStates = slices.Delete(targetStates, idx, idx+1)
 				t.cacheTargetStates.Store(&targetStates)
+				// only this state has been rejected, not the transition
+				ret = Executed
 			} else {
 				return ret
 			}
